@@ -76,7 +76,11 @@ def single(value):
     if isinstance(value, (list, tuple)):
         items = flatten(value)
         if len(items) == 1:
-            return items[0]
+            value = items[0]
+            if isinstance(value, error.XLError):
+                # an error object of the host's own making: the shared one of that code, which
+                # is what ISNA, IFNA, ERROR.TYPE compare with (Parser._canonical sees scalars only)
+                value = error.from_message(value)
     return value
 
 
@@ -166,6 +170,7 @@ def iparse_number_array(arr):
 
 
 def parse_criteria(criteria):
+    criteria = single(criteria)  # a criterion kept in a cell and referenced as a one-cell range
     if not isinstance(criteria, string_types):
         # COUNTIF(range, 2): a criterion that is not text selects the cells equal to it
         if isinstance(criteria, bool):
